@@ -162,9 +162,13 @@ class _TorusDynamicsService(_DynamicsServiceBase):
             raise ValueError("No parameters have been computed yet. Call compute_grid() first.")
         return self._latest_params
 
+    def _orbit_state_key(self) -> tuple:
+        """The state of the generating orbit that every cached quantity depends on."""
+        return (tuple(np.asarray(self.orbit.initial_state, dtype=float).tolist()), self.orbit.period)
+
     def eigen_data(self) -> Tuple[np.ndarray, np.ndarray, np.ndarray]:
         """The monodromy matrix, eigenvalues, and eigenvectors of the generating periodic orbit."""
-        key = self.make_key(id(self.orbit))
+        key = self.make_key(id(self.orbit), self._orbit_state_key())
         
         def _factory() -> Tuple[np.ndarray, np.ndarray, np.ndarray]:
             monodromy = self.orbit.monodromy
@@ -202,7 +206,7 @@ class _TorusDynamicsService(_DynamicsServiceBase):
         eigenvectors : np.ndarray
             Eigenvectors of the monodromy matrix.
         """
-        cache_key = self.make_key(id(self.orbit), n_theta1, method, order)
+        cache_key = self.make_key(id(self.orbit), self._orbit_state_key(), n_theta1, method, order)
 
         def _factory() -> Tuple[np.ndarray, np.ndarray, np.ndarray, np.ndarray, np.ndarray, np.ndarray, np.ndarray]:
             monodromy, evals, evecs = self.eigen_data()
@@ -324,7 +328,7 @@ class _TorusDynamicsService(_DynamicsServiceBase):
         np.ndarray
             The invariant torus grid.
         """
-        cache_key = self.make_key(epsilon, n_theta1, n_theta2, method, order)
+        cache_key = self.make_key(self._orbit_state_key(), epsilon, n_theta1, n_theta2, method, order)
         
         def _factory() -> np.ndarray:
             _, ubar, y_series, _, _, _, _ = self.prepare(n_theta1=n_theta1, method=method, order=order)
